@@ -23,7 +23,12 @@ func v17Tree(env *vEnv, upds []*sdcpb.Update) *tree.RootEntry {
 	ctx := context.Background()
 	treeSCC := tree.NewTreeCacheClient(env.ds.Name(), env.ds.cacheClient)
 	tc := tree.NewTreeContext(treeSCC, env.ds.schemaClient, env.ds.Name())
-	tc.GetTreeSchemaCacheClient().RefreshCaches(ctx)
+	// param "lazy" = 1: the up-front refresh of the store indexes did not happen (the datastore
+	// ignores its error), so the validators that need an index load it themselves, possibly
+	// several of them at the same time
+	if verifrt.Param("lazy", 0) == 0 {
+		tc.GetTreeSchemaCacheClient().RefreshCaches(ctx)
+	}
 	root, err := tree.NewTreeRoot(ctx, tc)
 	if err != nil {
 		panic(err)
@@ -79,7 +84,29 @@ func v17Updates(variant int) []*sdcpb.Update {
 			&sdcpb.Update{Path: vPath(vPE("interface", "name", "lo10"), vPE("description")), Value: vStrTV("d")},
 			&sdcpb.Update{Path: vPath(vPE("network-instance", "name", "ni1"), vPE("interface", "name", "lo1.0"), vPE("interface-ref"), vPE("interface")), Value: vStrTV("lo1")})
 	}
+	if variant == 3 {
+		// a doublekey entry and a BGP instance, both without their mandatory leaves (see
+		// v17MandatoryElsewhere): two validators (different goroutines) need the intended-store index
+		u = []*sdcpb.Update{
+			{Path: vPath(vPE("doublekey", "key1", "k1", "key2", "k2"), vPE("cont"), vPE("value1")), Value: vStrTV("x")},
+			{Path: vPath(vPE("network-instance", "name", "ni1"), vPE("protocol"), vPE("bgp"), vPE("admin-state")), Value: vStrTV("enable")},
+			{Path: vPath(vPE("rangetestunsigned")), Value: vUintTV(1000)},
+		}
+	}
 	return u
+}
+
+// v17MandatoryElsewhere: the mandatory leaves of the doublekey entry and of the BGP instance of
+// variant 3 are defined by another intent (B) - the mandatory validators find them through the
+// intended-store index only.
+func v17MandatoryElsewhere(env *vEnv) {
+	ctx := context.Background()
+	w := func(v *sdcpb.TypedValue, path ...string) {
+		_ = env.model.WriteValue(ctx, "ds", &sdccache.Opts{Store: sdccache.StoreIntended, Path: [][]string{path}, Owner: "B", Priority: 20}, vBytes(v))
+	}
+	w(vStrTV("m"), "doublekey", "k1", "k2", "mandato")
+	w(vUintTV(65001), "network-instance", "ni1", "protocol", "bgp", "autonomous-system")
+	w(vStrTV("10.0.0.1"), "network-instance", "ni1", "protocol", "bgp", "router-id")
 }
 
 // v17OnDemandTree: a tree built the way replaceIntent builds it - the intent's values only,
@@ -178,10 +205,16 @@ func v17Same(a, b []string, label string) {
 func VerifValidateConcurrent() {
 	variant := verifrt.Param("variant", 0)
 	envSeq := vNewEnv()
+	if variant == 3 {
+		v17MandatoryElsewhere(envSeq)
+	}
 	seqErrs, seqWarns := v17Verdict(v17Tree(envSeq, v17Updates(variant)), false)
 	verifrt.Reach("sequential-done")
 	verifrt.Assert(len(seqErrs) > 0, "C17-scenario-has-errors")
 	envCon := vNewEnv()
+	if variant == 3 {
+		v17MandatoryElsewhere(envCon)
+	}
 	rootCon := v17Tree(envCon, v17Updates(variant))
 	conErrs, conWarns := v17Verdict(rootCon, true)
 	verifrt.Reach("concurrent-done")
@@ -197,5 +230,75 @@ func VerifValidateConcurrent() {
 		for i := range conWarns {
 			verifrt.Assert(conWarns[i] == seqWarns[i], "C17-same-warnings")
 		}
+	}
+}
+
+// VerifIndexLazyConcurrent: the on-demand loading of the store indexes that the validators rely
+// on (mandatory: IntendedPathExists; leafref / must: ReadRunningPath; choice: GetBranchesHighesPrecedence).
+// The up-front RefreshCaches did not happen (the datastore ignores its error), "readers" goroutines
+// each ask one question at the same time; every explored interleaving must give each of them the
+// answer a client with loaded indexes gives.
+func VerifIndexLazyConcurrent() {
+	ctx := context.Background()
+	env := vNewEnv()
+	v17MandatoryElsewhere(env)
+	runPath := []string{"interface", "lo1", "description"}
+	_ = env.model.WriteValue(ctx, "ds", &sdccache.Opts{Store: sdccache.StoreConfig, Path: [][]string{runPath}}, vBytes(vStrTV("d")))
+	type answer struct {
+		exists bool
+		prio   int32
+		owner  string
+	}
+	ask := func(c *tree.TreeCacheClientImpl, op int) answer {
+		switch op {
+		case 0:
+			ok, _ := c.IntendedPathExists(ctx, []string{"doublekey", "k1", "k2", "mandato"})
+			return answer{exists: ok}
+		case 1:
+			ok, _ := c.IntendedPathExists(ctx, []string{"network-instance", "ni1", "protocol", "bgp", "router-id"})
+			return answer{exists: ok}
+		case 2:
+			u, _ := c.ReadRunningPath(ctx, runPath)
+			if u == nil {
+				return answer{}
+			}
+			return answer{exists: true, owner: u.Owner()}
+		case 3:
+			return answer{prio: c.GetBranchesHighesPrecedence(ctx, []string{"network-instance", "ni1", "protocol", "bgp"})}
+		}
+		// a path no store holds
+		ok, _ := c.IntendedPathExists(ctx, []string{"doublekey", "k1", "k2", "nosuch"})
+		return answer{exists: ok}
+	}
+	n := verifrt.Param("readers", 2)
+	ops := make([]int, n)
+	for i := range ops {
+		ops[i] = verifrt.Choice("op."+strconv.Itoa(i), 5)
+	}
+	ref := tree.NewTreeCacheClient(env.ds.Name(), env.ds.cacheClient)
+	_ = ref.RefreshCaches(ctx)
+	want := make([]answer, n)
+	for i, op := range ops {
+		want[i] = ask(ref, op)
+	}
+	verifrt.Reach("reference-answers")
+	lazy := tree.NewTreeCacheClient(env.ds.Name(), env.ds.cacheClient)
+	got := make([]answer, n)
+	done := make(chan int, n)
+	for i := range ops {
+		go func(i int) {
+			got[i] = ask(lazy, ops[i])
+			done <- i
+		}(i)
+	}
+	for range ops {
+		<-done
+	}
+	verifrt.AwaitQuiescence()
+	verifrt.Reach("concurrent-answers")
+	for i := range ops {
+		verifrt.Assert(got[i].exists == want[i].exists, "C17-lazy-index-same-existence")
+		verifrt.Assert(got[i].prio == want[i].prio, "C17-lazy-index-same-precedence")
+		verifrt.Assert(got[i].owner == want[i].owner, "C17-lazy-index-same-running-value")
 	}
 }
